@@ -15,7 +15,11 @@ import GivaroModel.Lemmas.PolyMisc
 import GivaroModel.Lemmas.PolyDiv
 import GivaroModel.Lemmas.PolyEuclid
 import GivaroModel.Lemmas.PolyMid
+import GivaroModel.Lemmas.PolyMidKara
 import GivaroModel.Lemmas.PadicLemmas
+import GivaroModel.Lemmas.PolyInterp
+import GivaroModel.Lemmas.PolyMore
+import GivaroModel.Lemmas.PolyCRT
 
 open Polynomial
 set_option linter.unusedSectionVars false
@@ -201,14 +205,9 @@ theorem stdmidmul_public_exact (P Q : List K) (hQ : Q ≠ []) (i : Nat) :
       = if i < P.length - Q.length + 1 then (toPoly P * toPoly Q).coeff (i + Q.length - 1) else 0 :=
   coeff_of_stdmid P Q hQ i
 
-/-- PARTIAL.  Full statement: for every threshold, all non-empty `P`, `Q` with `|P| ≥ |Q|` and every `i`,
-      `(toPoly (midmul thr P Q)).coeff i = if i < |P|-|Q|+1 then (toPoly P * toPoly Q).coeff (i+|Q|-1) else 0`
-    (and the same for `karamidmul` when `|P| = 2|Q|-1`).
-    Proved here for the operands on which the generic `midmul` selects the schoolbook middle product
-    (`min(m,n) <= KARA_THRESHOLD`, `m = |P|-|Q|+1`, `n = |Q|`).  The Karatsuba middle product (`karamidStep`) and the two
-    unbalanced block loops of `midR` are modelled line by line and compared with the implementation at thresholds 50 and
-    2, but their exactness is decided per generated case by the reference product, not by this theorem. -/
-theorem midmul_exact_partial (thr : Nat) (P Q : List K) (hQ : Q ≠ [])
+/-- the operands on which the generic `midmul` selects the schoolbook middle product (`min(m,n) <= KARA_THRESHOLD`,
+    `m = |P|-|Q|+1`, `n = |Q|`, or `|P| < |Q|`) -/
+theorem midmul_small_exact (thr : Nat) (P Q : List K) (hQ : Q ≠ [])
     (h : P.length + 1 ≤ Q.length ∨ min (P.length + 1 - Q.length) Q.length ≤ thr) (i : Nat) :
     (toPoly (midmul thr P Q)).coeff i
       = if i < P.length - Q.length + 1 then (toPoly P * toPoly Q).coeff (i + Q.length - 1) else 0 := by
@@ -227,6 +226,70 @@ theorem midmul_exact_partial (thr : Nat) (P Q : List K) (hQ : Q ≠ [])
 example : ∃ (thr : Nat) (P Q : List ℚ), Q ≠ [] ∧
     (P.length + 1 ≤ Q.length ∨ min (P.length + 1 - Q.length) Q.length ≤ thr) :=
   ⟨50, [1, 2, 3], [1, 2], by simp, Or.inr (by decide)⟩
+
+/-- Tier B, one level of `karamidmul(R,Rbeg,Rend,P,Pbeg,Pend,Q,Qbeg,Qend)` on a balanced shape (`|P| = 2|Q|-1`, R range of
+    `|Q|` places; `n0, n1, P0end, P1beg, P1plus, P1minus, P2beg, Qmid, Rmid`, `S0 = MP(P0+P1+, Q1)`, `S1 = MP(P1-+P2, Q0)`,
+    `S2 = MP(P1+, Q1 - X^(n%2) Q0)`, `R0 = S0 - S2`, `R1 = S1 + S2` as in the source), given recursive calls that are exact
+    on well-formed shapes: the R range keeps its length and entry `i` is the coefficient `i + |Q| - 1` of `P·Q` -/
+theorem karamidStep_exact (mid : Nat → List K → List K → List K) (hmid : MidOK mid) (P Q : List K) (hQ : Q ≠ [])
+    (hP : P.length + 1 = 2 * Q.length) :
+    (karamidStep mid Q.length P Q).length = Q.length ∧
+    ∀ i, i < Q.length → (karamidStep mid Q.length P Q).getD i 0 = (toPoly P * toPoly Q).coeff (i + Q.length - 1) := by
+  obtain ⟨h1, h2⟩ := Givaro.Lemmas.Poly.karamidStep_exact mid hmid P Q hQ hP
+  exact ⟨h1, fun i hi => by rw [h2 i hi, cs_eq_coeff]⟩
+
+example : ∃ (mid : Nat → List ℚ → List ℚ → List ℚ) (P Q : List ℚ), MidOK mid ∧ Q ≠ [] ∧ P.length + 1 = 2 * Q.length :=
+  ⟨midR 50 0, [1, 2, 3], [1, 2], midR_spec 50 0, by simp, by simp⟩
+
+/-- Tier B `midmul_exact`, range form: the generic `midmul(R,Rbeg,Rend,P,Pbeg,Pend,Q,Qbeg,Qend)` as written — dispatch
+    `min(m,n) <= KARA_THRESHOLD` to `stdmidmul`, `m = n` to `karamidmul` (recursion through the generic form), `m > n`: the loop
+    of balanced products on `R[i,i+n)`, `P[i,i+2n-1)` for `i = 0, n, … <= m-n` and the generic form on the rest, `m < n`: the
+    first balanced product written into `R`, the further ones (windows of `P` from the top, blocks of `m` coefficients of `Q`
+    from the bottom) and the generic form on what is left of `Q` accumulated through `Tmp` — on every well-formed range shape
+    (`|R| = |P| - |Q| + 1`, `1 <= |Q| <= |P|`, balanced or not), **every threshold** (0 included) and every recursion budget:
+    entry `i` of the R range is the coefficient `i + |Q| - 1` of `P·Q` -/
+theorem midR_exact (thr fuel : Nat) (P Q : List K) (hQ : Q ≠ []) (hPQ : Q.length ≤ P.length) (i : Nat)
+    (hi : i < P.length + 1 - Q.length) :
+    (midR thr fuel (P.length + 1 - Q.length) P Q).getD i 0 = (toPoly P * toPoly Q).coeff (i + Q.length - 1) := by
+  rw [midR_spec thr fuel P Q hQ hPQ i hi, cs_eq_coeff]
+
+example : ∃ (P Q : List ℚ) (i : Nat), Q ≠ [] ∧ Q.length ≤ P.length ∧ i < P.length + 1 - Q.length :=
+  ⟨[1, 2, 3], [1, 2], 0, by simp, by simp, by simp⟩
+
+/-- Tier B `midmul_exact` (full; replaces the former `midmul_exact_partial`): the public `midmul(R,P,Q)` holds exactly the
+    coefficients `|Q|-1 … |P|-1` of `P·Q`, for every threshold, every `P` and every non-empty `Q` (any sizes: balanced,
+    `m > n`, `m < n`, below and above the threshold, any storage) -/
+theorem midmul_exact (thr : Nat) (P Q : List K) (hQ : Q ≠ []) (i : Nat) :
+    (toPoly (midmul thr P Q)).coeff i
+      = if i < P.length - Q.length + 1 then (toPoly P * toPoly Q).coeff (i + Q.length - 1) else 0 := by
+  by_cases h : P.length + 1 ≤ Q.length
+  · exact midmul_small_exact thr P Q hQ (Or.inl h) i
+  · have hn : 0 < Q.length := List.length_pos_iff.mpr hQ
+    have hP : P ≠ [] := by intro e; subst e; exact h (by show 0 + 1 ≤ Q.length; omega)
+    unfold midmul
+    rw [if_neg (by simp [hP, hQ])]
+    have e : P.length - Q.length + 1 = P.length + 1 - Q.length := by omega
+    rw [e, toPoly_setdegree, coeff_toPoly, getD_pad]
+    split
+    · next hi => rw [midR_spec thr _ P Q hQ (by omega) i hi, cs_eq_coeff]
+    · rfl
+
+example : ∃ Q : List ℚ, Q ≠ [] := ⟨[1], by simp⟩
+
+/-- the public `karamidmul(R,P,Q)` (first Karatsuba level forced, documented precondition `|P| = 2|Q|-1`): exactly the
+    coefficients `|Q|-1 … 2|Q|-2` of `P·Q`, for every threshold -/
+theorem karamidmul_exact (thr : Nat) (P Q : List K) (hQ : Q ≠ []) (hP : P.length + 1 = 2 * Q.length) (i : Nat) :
+    (toPoly (karamidmul thr P Q)).coeff i
+      = if i < Q.length then (toPoly P * toPoly Q).coeff (i + Q.length - 1) else 0 := by
+  have hn : 0 < Q.length := List.length_pos_iff.mpr hQ
+  unfold karamidmul
+  have e : P.length - Q.length + 1 = Q.length := by omega
+  rw [e, toPoly_setdegree, coeff_toPoly, getD_pad]
+  split
+  · next hi => rw [(Givaro.Lemmas.Poly.karamidStep_exact _ (midR_spec thr _) P Q hQ hP).2 i hi, cs_eq_coeff]
+  · rfl
+
+example : ∃ (P Q : List ℚ), Q ≠ [] ∧ P.length + 1 = 2 * Q.length := ⟨[1, 2, 3], [1, 2], by simp, by simp⟩
 
 /-- the fused forms are exact (they are compositions of `mul`, `addin`, `subin`, `sub`, `neg`) -/
 theorem fused_exact (thr : Nat) (R A X' Y : List K) (c : K) :
@@ -563,6 +626,160 @@ example : ∃ (P Q U : ℚ[X]), Q ∣ U * P - 1 := ⟨1, X, 1, by simp⟩
 example : ∃ (P Q G U V L : ℚ[X]), G = P * U + Q * V ∧ L * G = P * Q ∧ G ≠ 0 :=
   ⟨1, 1, 1, 1, 0, 1, by ring, by ring, one_ne_zero⟩
 
+/-! ### the remaining members: observers on any storage, `setEntry`, `shiftin`, constructors, mixed scalar forms, `random` -/
+
+/-- `isOne`, `isMOne`, `isUnit`, `areNEqual` answer for the denoted polynomial whatever the storage (leading zeros, `[0]`,
+    `[]`): they normalise their `const` argument first -/
+theorem observers_any_storage (P Q : List K) :
+    (isOne P = true ↔ toPoly P = 1) ∧ (Givaro.Model.PolyMore.isMOne P = true ↔ toPoly P = -1) ∧
+    (Givaro.Model.PolyMore.isUnit P = true ↔ IsUnit (toPoly P)) ∧
+    (Givaro.Model.PolyMore.areNEqual P Q = true ↔ toPoly P ≠ toPoly Q) := by
+  refine ⟨Givaro.Lemmas.PolyMore.isOne_correct P, Givaro.Lemmas.PolyMore.isMOne_correct P,
+    Givaro.Lemmas.PolyMore.isUnit_correct P, ?_⟩
+  unfold Givaro.Model.PolyMore.areNEqual
+  rw [Bool.not_eq_true', decide_eq_false_iff_not, setdegree_eq_iff]
+
+/-- the observers by value on any storage: `degree` (`deginfty = -1` exactly for the zero polynomial, else the degree of the
+    denoted polynomial), `leadcoef`, `getEntry`; and `modpowx(R, P, l)` keeps exactly the coefficients below `l` -/
+theorem observers_values (P : List K) (i l : Nat) :
+    (toPoly P = 0 → Givaro.Model.Poly.degree P = -1) ∧
+    (toPoly P ≠ 0 → Givaro.Model.Poly.degree P = ((toPoly P).natDegree : Int)) ∧
+    leadcoef P = (toPoly P).leadingCoeff ∧ getEntry i P = (toPoly P).coeff i ∧
+    (toPoly (modpowx P l)).coeff i = if i < l then (toPoly P).coeff i else 0 :=
+  ⟨(Givaro.Lemmas.PolyMore.degree_value P).1, (Givaro.Lemmas.PolyMore.degree_value P).2, leadcoef_eq_leadingCoeff P,
+   Givaro.Lemmas.PolyMore.getEntry_eq i P, Givaro.Lemmas.PolyMore.coeff_modpowx P l i⟩
+
+/-- `isDivisor(P, Q)` decides `Q | P` for all operands (zero `Q` included: `0 | P` iff `P = 0`), any storage -/
+theorem isDivisor_exact (thr : Nat) (hthr : 1 ≤ thr) (P Q : List K) :
+    Givaro.Model.PolyMore.isDivisor thr P Q = true ↔ toPoly Q ∣ toPoly P :=
+  Givaro.Lemmas.PolyMore.isDivisor_correct thr hthr P Q
+
+example : ∃ thr : Nat, 1 ≤ thr := ⟨50, by decide⟩
+
+/-- the in-place division forms `divin(Q, A)` and `divmodin(Q, R, B)` return the Euclidean quotient / remainder -/
+theorem division_inplace_exact (thr : Nat) (hthr : 1 ≤ thr) (A B : List K) (hb : toPoly B ≠ 0) :
+    toPoly (divin thr A B) = toPoly A / toPoly B ∧
+    toPoly (divmodin thr A B).1 = toPoly A / toPoly B ∧ toPoly (divmodin thr A B).2 = toPoly A % toPoly B :=
+  ⟨Givaro.Lemmas.PolyMore.toPoly_divin thr hthr A B hb, Givaro.Lemmas.PolyMore.toPoly_divmodin thr hthr A B hb⟩
+
+example : ∃ (thr : Nat) (B : List ℚ), 1 ≤ thr ∧ toPoly B ≠ 0 := ⟨50, [1], by decide, by simp⟩
+
+/-- `val(d, P)` is the valuation: `deginfty` exactly for the zero polynomial (stored as `[]`, `[0]`, `[0,0]`, …), else the
+    index of the lowest non-zero coefficient -/
+theorem val_exact (P : List K) :
+    (Givaro.Model.PolyMore.val P = -1 ↔ toPoly P = 0) ∧
+    (toPoly P ≠ 0 → ∃ k : Nat, Givaro.Model.PolyMore.val P = (k : Int) ∧ (toPoly P).coeff k ≠ 0 ∧
+      ∀ j, j < k → (toPoly P).coeff j = 0) :=
+  Givaro.Lemmas.PolyMore.val_spec P
+
+/-- `setEntry(P, c, i)` (all four branches: nothing happens / degree is killed / element is killed / `resize`): the
+    coefficient of degree `i` becomes `c`, every other coefficient of the denoted polynomial is kept — any storage, any `i` -/
+theorem setEntry_exact (P : List K) (c : K) (i j : Nat) :
+    (toPoly (Givaro.Model.PolyMore.setEntry P c i)).coeff j = if j = i then c else (toPoly P).coeff j :=
+  Givaro.Lemmas.PolyMore.setEntry_coeff P c i j
+
+/-- `shiftin(R, s)` multiplies by `X^s` (un-normalised input included) -/
+theorem shiftin_exact (R : List K) (s : Nat) : toPoly (Givaro.Model.PolyMore.shiftin R s) = X ^ s * toPoly R :=
+  Givaro.Lemmas.PolyMore.toPoly_shiftin R s
+
+/-- constructors and assignments of givpoly1cstor.inl: `init(P)`, `init(P, v)`, `init(P, Degree d)`, `init(P, d, v)` /
+    `assign(P, d, v)` (normalised also for `v = 0`), `assign(P, v)`, `assign(P, Q)` (normal form of `Q`), and the polynomial →
+    scalar forms `assign(v, P)` / `convert(v, P)` (constant coefficient of the storage as it is) -/
+theorem cstor_exact (d : Nat) (v : K) (Q : List K) :
+    toPoly (Givaro.Model.PolyMore.init0 : List K) = 0 ∧ toPoly (Givaro.Model.PolyMore.initVal v) = C v ∧
+    toPoly (Givaro.Model.PolyMore.initDeg d : List K) = X ^ d ∧
+    toPoly (Givaro.Model.PolyMore.initDegVal d v) = C v * X ^ d ∧ Normal (Givaro.Model.PolyMore.initDegVal d v) ∧
+    toPoly (Givaro.Model.PolyMore.assignVal v) = C v ∧
+    toPoly (assign Q) = toPoly Q ∧ Normal (assign Q) ∧
+    Givaro.Model.PolyMore.toScalar Q = (toPoly Q).coeff 0 := by
+  refine ⟨rfl, by simp [Givaro.Model.PolyMore.initVal], Givaro.Lemmas.PolyMore.toPoly_initDeg d,
+    Givaro.Lemmas.PolyMore.toPoly_initDegVal d v, Givaro.Lemmas.PolyMore.normal_initDegVal d v, ?_,
+    toPoly_setdegree Q, Givaro.Lemmas.Poly.setdegree_normal Q, Givaro.Lemmas.PolyMore.toScalar_eq Q⟩
+  unfold Givaro.Model.PolyMore.assignVal
+  rw [Givaro.Lemmas.PolyMore.toPoly_initDegVal]; simp
+
+/-- the scalar / polynomial mixed quotient and remainder: `div(R, u, P) = u / P`, `mod(R, u, P) = u mod P` for every
+    non-zero `P` (any storage, constant or not), `mod(R, P, u) = modin(R, u) = P mod u` for every non-zero `u` -/
+theorem scalar_poly_mixed_exact (u : K) (P : List K) :
+    (toPoly P ≠ 0 → toPoly (Givaro.Model.PolyMore.valDiv u P) = C u / toPoly P) ∧
+    (toPoly P ≠ 0 → toPoly (Givaro.Model.PolyMore.valMod u P) = C u % toPoly P) ∧
+    (u ≠ 0 → toPoly (Givaro.Model.PolyMore.modVal P u) = toPoly P % C u) :=
+  ⟨Givaro.Lemmas.PolyMore.toPoly_valDiv u P, Givaro.Lemmas.PolyMore.toPoly_valMod u P,
+   Givaro.Lemmas.PolyMore.toPoly_modVal P u⟩
+
+example : ∃ (u : ℚ) (P : List ℚ), toPoly P ≠ 0 ∧ u ≠ 0 := ⟨1, [1], by simp, one_ne_zero⟩
+
+/-- `inv(R, P) = div(R, one, P)` (and `invin`): the Euclidean quotient `1 / P`, i.e. `1/c` for a non-zero constant `c` and
+    `0` for `deg P >= 1` -/
+theorem inv_exact (thr : Nat) (hthr : 1 ≤ thr) (P : List K) (hP : toPoly P ≠ 0) :
+    toPoly (Givaro.Model.PolyMore.inv thr P) = 1 / toPoly P :=
+  Givaro.Lemmas.PolyMore.toPoly_inv thr hthr P hP
+
+example : ∃ (thr : Nat) (P : List ℚ), 1 ≤ thr ∧ toPoly P ≠ 0 := ⟨50, [1], by decide, by simp⟩
+
+/-- `random(g, r, Degree d)` (and through it every `random` / `nonzerorandom` overload: `randomTarget`): whatever is drawn,
+    provided the leading draw is non-zero as `nonzerorandom` of the field promises, the result has exactly `d+1` coefficients,
+    is normalised and has degree `d`; `deginfty` gives the empty vector -/
+theorem random_shape (d : Int) (lead : K) (draws : List K) (hl : lead ≠ 0) :
+    (Givaro.Model.PolyMore.randomDeg d lead draws).length = (if d < 0 then 0 else d.toNat + 1) ∧
+    Normal (Givaro.Model.PolyMore.randomDeg d lead draws) ∧
+    Givaro.Model.Poly.degree (Givaro.Model.PolyMore.randomDeg d lead draws) = (if d < 0 then -1 else d) :=
+  Givaro.Lemmas.PolyMore.randomDeg_shape d lead draws hl
+
+example : ∃ lead : ℚ, lead ≠ 0 := ⟨1, one_ne_zero⟩
+
+/-! ### interpolation (givinterp.h) -/
+
+/-- `Interpolation<Domain>` as written — `operator()(x, f)` called for `(x_0,f_0), (x_1,f_1), …`: `DD.push_back(f)`,
+    `Pi = X·Pi - x_last·Pi`, the divided-difference loop `DD[j] = (DD[j] - DD[j+1]) / (x_j - x)` on reverse iterators,
+    `inter += DD.front()·Pi` — then `interpolator()`: for **every** number of points and all pairwise distinct abscissae the
+    result takes the value `f_i` at `x_i` for every `i`, and has degree below the number of points (the zero polynomial for no
+    point).  Any field. -/
+theorem interp_exact (pts : List (K × K)) (hd : (pts.map Prod.fst).Nodup) :
+    (∀ p ∈ pts, (toPoly (Givaro.Model.PolyInterp.interpolator pts)).eval p.1 = p.2) ∧
+    (toPoly (Givaro.Model.PolyInterp.interpolator pts)).degree < (pts.length : WithBot ℕ) :=
+  Givaro.Lemmas.PolyInterp.interpolator_spec pts hd
+
+example : ∃ pts : List (ℚ × ℚ), (pts.map Prod.fst).Nodup := ⟨[(0, 1), (1, 2)], by simp⟩
+
+/-- certificate used by the driver for the interpolation classes: values at the points and the degree bound determine the
+    polynomial, so an output accepted by the check *is* the interpolant (hence equal to the model's) -/
+theorem interp_unique (pts : List (K × K)) (hd : (pts.map Prod.fst).Nodup) (F G : K[X])
+    (hF : ∀ p ∈ pts, F.eval p.1 = p.2) (hG : ∀ p ∈ pts, G.eval p.1 = p.2)
+    (dF : F.degree < (pts.length : WithBot ℕ)) (dG : G.degree < (pts.length : WithBot ℕ)) : F = G :=
+  Givaro.Lemmas.PolyInterp.interp_unique pts hd F G hF hG dF dG
+
+example : ∃ (pts : List (ℚ × ℚ)) (F G : ℚ[X]), (pts.map Prod.fst).Nodup ∧ (∀ p ∈ pts, F.eval p.1 = p.2) ∧
+    (∀ p ∈ pts, G.eval p.1 = p.2) ∧ F.degree < (pts.length : WithBot ℕ) ∧ G.degree < (pts.length : WithBot ℕ) :=
+  ⟨[(0, 1)], 1, 1, by simp, by simp, by simp, by simp, by simp⟩
+
+/-- the scalar fused forms `axpy(r, a, x, y)` and `axpyin(r, a, x)` (coefficient loops over the common part, then the longer
+    operand): exact for all operands of any sizes -/
+theorem fused_scalar_exact (c : K) (R X' Y : List K) :
+    toPoly (axpyVal c X' Y) = C c * toPoly X' + toPoly Y ∧ toPoly (axpyinVal c R X') = toPoly R + C c * toPoly X' :=
+  ⟨Givaro.Lemmas.PolyCRT.toPoly_axpyVal c X' Y, Givaro.Lemmas.PolyCRT.toPoly_axpyinVal c R X'⟩
+
+/-! ### polynomial CRT (givpoly1crt.h) -/
+
+/-- `Poly1CRT::RnsToRing` as written (`ComputeCk`: `prod = Π_{j<k}(X - primes[j])`, `ck[k] = prod / prod(primes[k])`; then
+    `I = rns[0]`, `I += (rns[i] - I(primes[i]))·ck[i]`): for every number of pairwise distinct points and as many residues the
+    result takes the residue `rns[i]` at `primes[i]` for every `i` and has degree below the number of points — the CRT lift
+    modulo `Π (X - primes[i])`.  Every threshold; and `RingToRns` is evaluation at the points. -/
+theorem crt_exact (thr : Nat) (primes rns : List K) (hne : primes ≠ []) (hlen : rns.length = primes.length)
+    (hnd : primes.Nodup) :
+    (∀ q ∈ primes.zip rns, (toPoly (Givaro.Model.PolyCRT.rnsToRing thr primes rns)).eval q.1 = q.2) ∧
+    (toPoly (Givaro.Model.PolyCRT.rnsToRing thr primes rns)).degree < (primes.length : WithBot ℕ) ∧
+    ∀ a : List K, Givaro.Model.PolyCRT.ringToRns primes a = primes.map (fun p => (toPoly a).eval p) := by
+  obtain ⟨h1, h2⟩ := Givaro.Lemmas.PolyCRT.rnsToRing_spec thr primes rns hne hlen hnd
+  refine ⟨h1, h2, fun a => ?_⟩
+  unfold Givaro.Model.PolyCRT.ringToRns
+  apply List.map_congr_left
+  intro p _
+  exact eval_eq a p
+
+example : ∃ (primes rns : List ℚ), primes ≠ [] ∧ rns.length = primes.length ∧ primes.Nodup :=
+  ⟨[0, 1], [1, 2], by simp, by simp, by simp⟩
+
 /-! ### p-adic conversion (givpoly1padic.h) -/
 
 /-- `eval (radix E) = E` for every integer `E ≥ 0` and every `p ≥ 2` (recursive splitting at `t = (n+1)/2` with the zero
@@ -578,5 +795,16 @@ theorem padic_radix_eval (p : Nat) (hp : 2 ≤ p) (P : List Nat) (hd : ∀ d ∈
   Givaro.Lemmas.Padic.radix_eval p hp P hd hn
 
 example : ∃ (p : Nat) (P : List Nat), 2 ≤ p ∧ (∀ d ∈ P, d < p) ∧ P.getLast? ≠ some 0 := ⟨2, [1], by decide, by simp, by simp⟩
+
+/-- the direct conversions: `radixdirect(P, E, n)` (integral `E`) writes exactly `n` canonical digits whose value is
+    `E mod p^n` (so `E` itself when `E < p^n`), and `evaldirect` is the Horner value — every `p ≥ 1`, `n`, `E`, every vector -/
+theorem padic_direct_exact (p : Nat) (hp : 1 ≤ p) (n E : Nat) (P : List Nat) :
+    (Givaro.Model.Padic.radixDirect p n E).length = n ∧ (∀ d ∈ Givaro.Model.Padic.radixDirect p n E, d < p) ∧
+    Givaro.Model.Padic.eval p (Givaro.Model.Padic.radixDirect p n E) = E % p ^ n ∧
+    Givaro.Model.Padic.evalDirect p P = Givaro.Model.Padic.eval p P :=
+  ⟨(Givaro.Lemmas.PolyMore.radixDirect_spec p hp n E).1, (Givaro.Lemmas.PolyMore.radixDirect_spec p hp n E).2.1,
+   (Givaro.Lemmas.PolyMore.radixDirect_spec p hp n E).2.2, Givaro.Lemmas.PolyMore.evalDirect_eq p P⟩
+
+example : ∃ p : Nat, 1 ≤ p := ⟨2, by decide⟩
 
 end Givaro.Props.C08
